@@ -59,6 +59,18 @@ def d1_forwarding(ctx):
             in_branch = any("collection" in src(t) and "None" in src(t) for t, pol in gs)
             ctx.check(in_branch, fi, c, c, "recursion happens only when a collection is given", "recursion is not guarded by `collection is not None`", key=f"{name}:guard")
             b = bind(c, fi)
+            # settings passed through a local dict (**opts): its literal keys count as bound keywords
+            for sk in b.star_kwargs:
+                dv = expand_name(du, sk, c)
+                items = []
+                if isinstance(dv, ast.Dict):
+                    items = [(k.value, v) for k, v in zip(dv.keys, dv.values) if isinstance(k, ast.Constant) and isinstance(k.value, str)]
+                elif isinstance(dv, ast.Call) and call_name(dv) == "dict":
+                    items = [(k.arg, k.value) for k in dv.keywords if k.arg]
+                for k, v in items:
+                    if k in params and k not in b.bound:
+                        b.bound[k] = v
+                        b.how[k] = "kw"
             coll = b.bound.get("collection")
             ctx.check(isinstance(coll, ast.Constant) and coll.value is None, fi, c, c, "recursive call clears the collection", "recursive call does not pass collection=None (infinite recursion / regrouping)",
                       key=f"{name}:collection-none")
